@@ -136,7 +136,7 @@ using W = gmlc::libguarded::ordered_guarded<PT, std::shared_mutex>;
 using W = gmlc::libguarded::atomic_guarded<PT>;
 #define RW 0
 #endif
-enum Op { OP_STORE = 1, OP_LOAD, OP_ASSIGN, OP_XCHG, OP_CAS, OP_MODIFY, OP_READ };
+enum Op { OP_STORE = 1, OP_LOAD, OP_ASSIGN, OP_XCHG, OP_CAS, OP_MODIFY, OP_READ, OP_MODIFYV, OP_READV };
 extern "C" {
 W* g_w;
 void vp_setup()
@@ -172,6 +172,9 @@ VP_INLINE void do_op(int op)
 #if WRAP == 5
             case OP_MODIFY: g_w->modify([](PT& p) { maybe_throw(); p.a += 1; p.b += 1; }); break;
             case OP_READ: g_w->read([](const PT& p) { maybe_throw(); vp_assert(p.a == p.b, 2010); }); break;
+            // the value-returning overloads are separate function templates with their own locking
+            case OP_MODIFYV: { int r = g_w->modify([](PT& p) { maybe_throw(); p.a += 1; p.b += 1; return p.a; }); vp_assert(r >= 2, 2016); break; }
+            case OP_READV: { int r = g_w->read([](const PT& p) { maybe_throw(); return p.a - p.b; }); vp_assert(r == 0, 2010); break; }
 #endif
             default: break;
         }
